@@ -229,7 +229,12 @@ Section PREP.
     | Not x => Not (prep_e env x)
     | NotNull x => NotNull (prep_e env x)
     | In l r => In (prep_e env l) (map (prep_e env) r)
-    | Col x a => Col (prep_e env x) a
+    (* cluster mode prints every WithRef inline, `(SELECT ...) as alias`: read it back as the reference *)
+    | Col x a => match x with
+                 | SubQ q | LOp OAnd [SubQ q] =>          (* harness/sqlparse reads the parentheses as a one-element group *)
+                   if String.eqb a "" then Col (prep_e env x) a else WRef a (prep_sel prep_e env q)
+                 | _ => Col (prep_e env x) a
+                 end
     | Ord x asc => Ord (prep_e env x) asc
     | Idx x k => Idx (prep_e env x) (prep_e env k)
     | Fn name args =>
@@ -533,7 +538,7 @@ Definition check_case (s : scase) : cverdict :=
   let hl := hash_concrete in
   let q := sc_q s in let c := sc_ctx s in
   let impl := prep (days_near c) (frag_cands q) (sc_tree s) in
-  let text_ok := match render impl false with Some t => String.eqb t (sc_sql s) | None => false end in
+  let text_ok := match render impl (c_cluster c) with Some t => String.eqb t (sc_sql s) | None => false end in
   let fin := sc_fin s in
   let msel := if fin then log_select q c else bp_select q c in
   {| cv_id := sc_id s; cv_fragment := in_fragment q; cv_fragment2 := in_fragment2 q; cv_width := width_guard q; cv_ctx_ok := ctx_ok c;
